@@ -11,6 +11,7 @@ CONSTANTS
   TrOnly = FALSE
   AxisBy = "dims"
   Memo = FALSE
+  SweepStride = 250
   WriteVia = "data"
   ClampBy = "dim"
   RangeBy = "coords"
